@@ -6,22 +6,16 @@
 From Coq Require Import ZArith List Bool Lia Permutation Sorted.
 From Gen Require Import Constants.
 From Model Require Import Tree Text Bits Instr Offset AsmAst Obj SourceInfo Assembler.
-From Spec Require Import LayoutSpec WfSpec.
+From Spec Require Import LayoutSpec WfSpec LineSpec.
 From Proofs Require Import AsmBase AsmPass1 AsmBlocks AsmPass2 AsmDebug AsmThms AsmLineMap SourceInfoProofs.
 Import ListNotations.
 Open Scope Z_scope.
 Ltac Zify.zify_post_hook ::= Z.div_mod_to_equations.
 
-Definition line_of (text : str) (s : stmt) : Z := get_line text (s_start s).
-Definition lines_inc (text : str) (p : list stmt) : Prop :=
-  StronglySorted (fun s s' => line_of text s < line_of text s') p.
-
-Definition entry_of (text : str) (cs : pos * stmt) : list (Z * Z) :=
-  match fst cs with
-  | Some (_, a) => if no_line_entry (s_nucleus (snd cs)) then [] else [(line_of text (snd cs), a)]
-  | None => []
-  end.
-Definition entries (text : str) (p : list stmt) : list (Z * Z) := flat_map (entry_of text) (placed p).
+Definition entry_of := line_entry.
+Definition entries := spec_lines.
+Lemma no_line_entry_needs s : no_line_entry (s_nucleus s) = negb (needs_addr s).
+Proof. unfold no_line_entry, needs_addr. destruct (s_nucleus s) as [i|[a|o|n|t| |l]]; reflexivity. Qed.
 
 Lemma count_lt_nonneg l x : 0 <= count_lt l x.
 Proof. induction l as [|a l IH]; cbn [count_lt]; [lia|]. destruct (a <? x); lia. Qed.
@@ -141,9 +135,9 @@ Proof.
       destruct (IH (pre ++ [s]) st1 _ st' HI1 L1 T2 E) as [R1 R2]. split.
       * rewrite R1. f_equal. cbn [place flat_map]. rewrite fold_left_app, final_snoc. f_equal.
         pose proof (i1_cur _ _ HI) as CR. unfold cur_rel in CR. cbn [erase p1_cur] in CR.
-        unfold entry_of. cbn [fst snd].
+        unfold entry_of, line_entry. cbn [fst snd].
         destruct (p1_cur st) as [cu|]; destruct (final None pre) as [[o a]|]; try contradiction; [|reflexivity].
-        destruct CR as [-> _]. destruct (no_line_entry (s_nucleus s)); reflexivity.
+        destruct CR as [-> _]. unfold line_entry. cbn [fst snd]. rewrite no_line_entry_needs. destruct (needs_addr s); reflexivity.
       * rewrite <- app_assoc in R2. exact R2.
     + destruct D as [D|D]; congruence.
     + congruence.
@@ -224,4 +218,85 @@ Proof.
     destruct (p1_cur st'); [discriminate|]. rewrite L. fold (entries text p).
     destruct (lsm_new _); [discriminate|contradiction].
   - fold st0. rewrite S. discriminate.
+Qed.
+
+(* ---------- positional facts about the entries ---------- *)
+Definition ents (text : str) (c : pos) (p : list stmt) : list (Z * Z) := flat_map (entry_of text) (place c p).
+Lemma ents_cons text c s r : ents text c (s :: r) = entry_of text (c, s) ++ ents text (next c s) r.
+Proof. reflexivity. Qed.
+Lemma entries_ents text p : entries text p = ents text None p.
+Proof. reflexivity. Qed.
+
+Lemma entry_in text c s n a : In (n, a) (entry_of text (c, s)) ->
+  n = line_of text s /\ needs_addr s = true /\ exists o, c = Some (o, a).
+Proof.
+  unfold entry_of, line_entry. cbn [fst snd]. destruct c as [[o a0]|]; [|contradiction].
+  destruct (needs_addr s); [|contradiction]. intros [H|[]]. injection H as <- <-. repeat split. exists o. reflexivity.
+Qed.
+
+Lemma lines_inc_inv text s r : lines_inc text (s :: r) ->
+  lines_inc text r /\ forall s', In s' r -> line_of text s < line_of text s'.
+Proof. intros H. apply StronglySorted_inv in H. destruct H as [H1 H2]. split; [exact H1|]. rewrite Forall_forall in H2. exact H2. Qed.
+
+Lemma ent_min text p : forall c, lines_inc text p -> forall n a, In (n, a) (ents text c p) ->
+  match p with
+  | [] => False
+  | s0 :: _ => line_of text s0 <= n /\ (n = line_of text s0 -> exists o, c = Some (o, a))
+  end.
+Proof.
+  induction p as [|s r IH]; intros c LI n a H; [contradiction|].
+  rewrite ents_cons in H. apply in_app_or in H. destruct (lines_inc_inv text s r LI) as [LI' LT]. destruct H as [H|H].
+  - apply entry_in in H. destruct H as [-> [_ X]]. split; [lia | intros _; exact X].
+  - specialize (IH _ LI' n a H). destruct r as [|s1 r']; [contradiction|]. destruct IH as [I1 _].
+    pose proof (LT s1 (or_introl eq_refl)). split; [lia|]. intros ->. lia.
+Qed.
+
+Lemma ent_nodup text p : forall c, lines_inc text p -> NoDup (map fst (ents text c p)).
+Proof.
+  induction p as [|s r IH]; intros c LI; [constructor|].
+  destruct (lines_inc_inv text s r LI) as [LI' LT]. rewrite ents_cons, map_app.
+  apply NoDup_app_disjoint; [|apply IH; exact LI'|].
+  - unfold entry_of, line_entry. cbn [fst snd]. destruct c as [[o a]|]; [|constructor]. destruct (needs_addr s); repeat constructor. intros [].
+  - intros n H1 H2. apply in_map_iff in H1, H2. destruct H1 as [[n1 a1] [E1 H1]]. destruct H2 as [[n2 a2] [E2 H2]]. cbn in E1, E2. subst n1 n2.
+    apply entry_in in H1. destruct H1 as [-> _]. pose proof (ent_min text r _ LI' _ _ H2) as M.
+    destruct r as [|s1 r']; [contradiction|]. pose proof (LT s1 (or_introl eq_refl)). lia.
+Qed.
+
+Lemma next_needs c s o a : needs_addr s = true -> c = Some (o, a) -> next c s = Some (o, a + size s).
+Proof. unfold needs_addr, next. intros H ->. destruct (s_nucleus s) as [i|[a0|o0|n|t| |l]]; try discriminate; reflexivity. Qed.
+
+(* two entries on consecutive lines belong to consecutive statements of one block *)
+Lemma ent_adj text p : typed p = true -> forall c, lines_inc text p ->
+  forall n a1 a2, In (n, a1) (ents text c p) -> In (n + 1, a2) (ents text c p) ->
+  a1 <= a2 /\ (blkw_pos p = true -> a1 < a2).
+Proof.
+  induction p as [|s r IH]; intros T c LI n a1 a2 H1 H2; [contradiction|].
+  cbn [typed forallb] in T. apply andb_prop in T. destruct T as [Ts Tr].
+  destruct (lines_inc_inv text s r LI) as [LI' LT]. rewrite ents_cons in H1, H2.
+  apply in_app_or in H1, H2. destruct H1 as [H1|H1]; destruct H2 as [H2|H2].
+  - apply entry_in in H1, H2. destruct H1 as [E1 _]. destruct H2 as [E2 _]. lia.
+  - apply entry_in in H1. destruct H1 as [-> [NA [o Ec]]].
+    pose proof (ent_min text r _ LI' _ _ H2) as M. destruct r as [|s1 r']; [contradiction|].
+    pose proof (LT s1 (or_introl eq_refl)) as L1. destruct M as [M1 M2].
+    assert (EQ : line_of text s + 1 = line_of text s1) by lia. destruct (M2 EQ) as [o' Ec'].
+    rewrite (next_needs c s o a1 NA Ec) in Ec'. injection Ec' as _ <-.
+    pose proof (size_bounds s Ts) as SB. split; [lia|]. intros BP. cbn [blkw_pos forallb] in BP. apply andb_prop in BP. destruct BP as [BP _].
+    assert (0 < size s); [|lia]. unfold size, needs_addr in *. destruct (s_nucleus s) as [i|[a0|o0|m|t| |l]]; try discriminate; try lia.
+    pose proof (byte_len_nonneg t). lia.
+  - apply entry_in in H2. destruct H2 as [E2 _]. pose proof (ent_min text r _ LI' _ _ H1) as M.
+    destruct r as [|s1 r']; [contradiction|]. pose proof (LT s1 (or_introl eq_refl)). lia.
+  - destruct (IH Tr _ LI' n a1 a2 H1 H2) as [I1 I2]. split; [exact I1|]. intros BP. apply I2.
+    cbn [blkw_pos forallb] in BP. apply andb_prop in BP. exact (proj2 BP).
+Qed.
+
+(* every entry is followed by a later statement when the program ends outside a block *)
+Lemma ent_closed text p : forall c, final c p = None -> lines_inc text p ->
+  forall n a, In (n, a) (ents text c p) -> exists s', In s' p /\ n < line_of text s'.
+Proof.
+  induction p as [|s r IH]; intros c F LI n a H; [contradiction|].
+  destruct (lines_inc_inv text s r LI) as [LI' LT]. rewrite ents_cons in H. apply in_app_or in H.
+  assert (F' : final (next c s) r = None) by exact F. destruct H as [H|H].
+  - apply entry_in in H. destruct H as [-> [NA [o Ec]]]. rewrite (next_needs c s o a NA Ec) in F'.
+    destruct r as [|s1 r']; [discriminate F'|]. exists s1. split; [right; left; reflexivity | apply LT; left; reflexivity].
+  - destruct (IH _ F' LI' n a H) as [s' [I1 I2]]. exists s'. split; [right; exact I1 | exact I2].
 Qed.
